@@ -3,6 +3,8 @@ package rules
 import (
 	"fmt"
 	"regexp/syntax"
+	"sort"
+	"strings"
 
 	"golang.org/x/tools/go/ssa"
 
@@ -58,46 +60,51 @@ func (c *Ctx) Rx() *RxTable {
 	type alias struct{ dst, src *ssa.Global }
 	var aliases []alias
 	for _, pkg := range c.P.SSA.AllPackages() {
-		initFn := pkg.Func("init")
-		if initFn == nil {
-			continue
-		}
 		inRepo := load.InModule(pkg.Pkg.Path())
 		if !inRepo && pkg.Pkg.Path() != "github.com/Masterminds/semver/v3" {
 			continue
 		}
-		allInstrs(initFn, func(in ssa.Instruction) {
-			st, ok := in.(*ssa.Store)
-			if !ok {
-				return
+		var inits []*ssa.Function
+		for name, mem := range pkg.Members {
+			if f, ok := mem.(*ssa.Function); ok && (name == "init" || strings.HasPrefix(name, "init#")) {
+				inits = append(inits, f)
 			}
-			g, ok := st.Addr.(*ssa.Global)
-			if !ok || !isNamed(derefType(g.Type()), "regexp", "Regexp") {
-				return
-			}
-			if src, ok := mustCompileConst(st.Val); ok {
-				if _, dup := t.byGlobal[g]; dup {
-					t.ambig[g] = "assigned more than once"
+		}
+		sort.Slice(inits, func(i, j int) bool { return inits[i].Name() < inits[j].Name() })
+		for _, initFn := range inits {
+			allInstrs(initFn, func(in ssa.Instruction) {
+				st, ok := in.(*ssa.Store)
+				if !ok {
 					return
 				}
-				re, err := rx.Parse(src)
-				if err != nil {
-					t.ambig[g] = "does not parse: " + err.Error()
+				g, ok := st.Addr.(*ssa.Global)
+				if !ok || !isNamed(derefType(g.Type()), "regexp", "Regexp") {
 					return
 				}
-				p := &Pattern{Name: load.ShortPkg(g.Pkg.Pkg.Path()) + "." + g.Name(), Src: src, Re: re, Global: g, Pos: c.P.InstrPos(st)}
-				t.byGlobal[g] = p
-				t.all = append(t.all, p)
-				return
-			}
-			if u, ok := st.Val.(*ssa.UnOp); ok {
-				if sg, ok := u.X.(*ssa.Global); ok {
-					aliases = append(aliases, alias{g, sg})
+				if src, ok := mustCompileConst(st.Val); ok {
+					if _, dup := t.byGlobal[g]; dup {
+						t.ambig[g] = "assigned more than once"
+						return
+					}
+					re, err := rx.Parse(src)
+					if err != nil {
+						t.ambig[g] = "does not parse: " + err.Error()
+						return
+					}
+					p := &Pattern{Name: load.ShortPkg(g.Pkg.Pkg.Path()) + "." + g.Name(), Src: src, Re: re, Global: g, Pos: c.P.InstrPos(st)}
+					t.byGlobal[g] = p
+					t.all = append(t.all, p)
 					return
 				}
-			}
-			t.ambig[g] = "initialised from a non-constant expression"
-		})
+				if u, ok := st.Val.(*ssa.UnOp); ok {
+					if sg, ok := u.X.(*ssa.Global); ok {
+						aliases = append(aliases, alias{g, sg})
+						return
+					}
+				}
+				t.ambig[g] = "initialised from a non-constant expression"
+			})
+		}
 	}
 	for i := 0; i < 3; i++ {
 		for _, a := range aliases {
@@ -110,7 +117,7 @@ func (c *Ctx) Rx() *RxTable {
 	}
 	// stores to pattern globals outside init make them unresolvable
 	for _, fn := range c.P.RepoFns {
-		if fn.Name() == "init" && fn.Parent() == nil {
+		if (fn.Name() == "init" || strings.HasPrefix(fn.Name(), "init#")) && fn.Parent() == nil {
 			continue
 		}
 		allInstrs(fn, func(in ssa.Instruction) {
